@@ -880,6 +880,8 @@ class PackageSet:
             except pyparsing.ParseBaseException as e:
                 raise BobError("Invalid syntax: " + str(e),
                                help=markLocation(e.line, e.col))
+            except RecursionError:
+                raise BobError("Invalid syntax: expression too deeply nested")
             assert len(path) == 1
             assert isinstance(path[0], LocationPath)
             #print(path[0])
